@@ -54,3 +54,13 @@ HARNESSES.append(
          undefined_ok="*", cbmc_flags=["--object-bits", "10"],
          unwind=12, unwindset={"vf_bytes:/./": 60, "checkAsnOidDatabase:/while \\(1\\)/": 8, "memcmp.0": 26, "getAsnOID:/./": 60},
          cases=[dict(name="size%d" % n, tier=t, defs={"VF_SIZE": n}) for n, t in ((40, "quick"),)]))
+
+HARNESSES.append(
+    dict(name="ocsp_outer", src="ocsp_outer.c", checks=M, units=["crypto/keyformat/asn1.c", "core/src/psbuf.c"],
+         renames={"crypto/keyformat/x509.c": ["ocspParseBasicResponse"]},
+         functions=["psOcspParseResponse", "getAsnSequence", "getAsnEnumerated", "getAsnOID", "getAsnLength32"],
+         sources=["crypto/keyformat/x509.c", "crypto/keyformat/asn1.c"],
+         assumptions=["ocsp_outer: input is an object of exactly 28 bytes, contents arbitrary; ocspParseBasicResponse is a checking stub (window inside the input)"],
+         undefined_ok="*", cbmc_flags=["--object-bits", "10"],
+         unwind=12, unwindset={"vf_bytes:/./": 60, "checkAsnOidDatabase:/while \\(1\\)/": 8, "memcmp.0": 26, "getAsnOID:/./": 60},
+         cases=[dict(name="size28", defs={"VF_SIZE": 28})]))
